@@ -8,7 +8,7 @@
 //  2. every accepted configuration must survive serialize -> reload unchanged, in YAML and JSON:
 //     a) strict decode into an empty configuration (what the config API does with a payload),
 //     b) the file loader gate.LoadConfig (what a restart / file reload does: the file is decoded
-//        on top of the built-in defaults).
+//     on top of the built-in defaults).
 //     "Unchanged" = same YAML and same JSON rendering (the structs have no unserialised fields);
 //     text components are compared in the format of the round trip only, because the legacy
 //     codec may re-group equally coloured runs.
@@ -23,6 +23,7 @@ import (
 	"path/filepath"
 	"sort"
 	"strings"
+	"sync"
 	"testing"
 	"time"
 
@@ -309,14 +310,70 @@ func applyEdit(rng *rand.Rand, c *gcfg.Config) edit {
 
 // ---- round trips -------------------------------------------------------------------------------
 
-func stripComponents(c *gcfg.Config) *gcfg.Config {
+// canonComponents returns a copy of c whose text components are replaced by the fixpoint of
+// "render as YAML scalar, parse again". The legacy codec re-groups equally styled runs and the
+// JSON codec spells colours differently, so two component trees that display the same text can
+// render differently once; after re-parsing both converge. Only the component library
+// (go.minekube.com/common) is involved, not the configuration code under judgement.
+var (
+	canonMu    sync.Mutex
+	canonCache = map[*configutil.Component]*configutil.Component{}
+)
+
+func canonComponents(c *gcfg.Config) *gcfg.Config {
 	o := cloneCfg(c)
-	o.Config.Status.Motd = nil
-	o.Config.ShutdownReason = nil
+	fix := func(m *configutil.Component) *configutil.Component {
+		if m == nil {
+			return nil
+		}
+		canonMu.Lock()
+		c, ok := canonCache[m]
+		canonMu.Unlock()
+		if ok {
+			return c
+		}
+		cur := m
+		prev := ""
+		for i := 0; i < 4; i++ {
+			b, err := yaml.Marshal(struct{ M *configutil.Component }{cur})
+			if err != nil || string(b) == prev {
+				break
+			}
+			prev = string(b)
+			var back struct{ M *configutil.Component }
+			if yaml.Unmarshal(b, &back) != nil || back.M == nil {
+				break
+			}
+			cur = back.M
+		}
+		canonMu.Lock()
+		if len(canonCache) < 4096 {
+			canonCache[m] = cur
+		}
+		canonMu.Unlock()
+		return cur
+	}
+	o.Config.Status.Motd = fix(o.Config.Status.Motd)
+	if sr := o.Config.ShutdownReason; sr != nil {
+		cur, prev := sr, ""
+		for i := 0; i < 4; i++ {
+			b, err := yaml.Marshal(struct{ M *configutil.TextComponent }{cur})
+			if err != nil || string(b) == prev {
+				break
+			}
+			prev = string(b)
+			var back struct{ M *configutil.TextComponent }
+			if yaml.Unmarshal(b, &back) != nil || back.M == nil {
+				break
+			}
+			cur = back.M
+		}
+		o.Config.ShutdownReason = cur
+	}
 	for i := range o.Config.Lite.Routes {
 		if fb := o.Config.Lite.Routes[i].Fallback; fb != nil {
 			cp := *fb
-			cp.MOTD = nil
+			cp.MOTD = fix(cp.MOTD)
 			o.Config.Lite.Routes[i].Fallback = &cp
 		}
 	}
@@ -339,88 +396,145 @@ func jsonOf(c *gcfg.Config) string {
 	return string(b)
 }
 
-// firstDiff names the first differing member between two renderings (YAML line or JSON offset).
-func firstDiff(a, b string) string {
-	if strings.Contains(a, "\n") {
-		la, lb := strings.Split(a, "\n"), strings.Split(b, "\n")
-		var stack []string
-		for i := 0; i < len(la) || i < len(lb); i++ {
-			var x, y string
-			if i < len(la) {
-				x = la[i]
-			}
-			if i < len(lb) {
-				y = lb[i]
-			}
-			if x != y {
-				return fmt.Sprintf("under %q: %.100q vs %.100q", strings.Join(stack, "."), x, y)
-			}
-			ind := (len(x) - len(strings.TrimLeft(x, " "))) / 4
-			if t := strings.TrimSpace(x); strings.HasSuffix(t, ":") && ind < 4 {
-				if ind < len(stack) {
-					stack = stack[:ind]
+// treeDiff returns the member path and a description of the first difference of two generic
+// trees (sorted-key walk); path == nil means equal.
+func treeDiff(a, b any, path []string) ([]string, string) {
+	switch x := a.(type) {
+	case map[string]any:
+		y, ok := b.(map[string]any)
+		if !ok {
+			return path, fmt.Sprintf("%.80v vs %.80v", a, b)
+		}
+		keys := map[string]bool{}
+		for k := range x {
+			keys[k] = true
+		}
+		for k := range y {
+			keys[k] = true
+		}
+		ks := make([]string, 0, len(keys))
+		for k := range keys {
+			ks = append(ks, k)
+		}
+		sort.Strings(ks)
+		for _, k := range ks {
+			xv, xo := x[k]
+			yv, yo := y[k]
+			p := append(append([]string(nil), path...), k)
+			if xo != yo {
+				if xo {
+					return p, fmt.Sprintf("member only before: %.80v", xv)
 				}
-				stack = append(stack, strings.TrimSuffix(t, ":"))
+				return p, fmt.Sprintf("member only after: %.80v", yv)
+			}
+			if dp, d := treeDiff(xv, yv, p); dp != nil {
+				return dp, d
 			}
 		}
-		return "no line differs"
-	}
-	for i := 0; i < len(a) && i < len(b); i++ {
-		if a[i] != b[i] {
-			lo := i - 60
-			if lo < 0 {
-				lo = 0
-			}
-			return fmt.Sprintf("at %d: %.140q vs %.140q", i, a[lo:], b[lo:])
+		return nil, ""
+	case []any:
+		y, ok := b.([]any)
+		if !ok || len(x) != len(y) {
+			return path, fmt.Sprintf("%.80v vs %.80v", a, b)
 		}
+		for i := range x {
+			if dp, d := treeDiff(x[i], y[i], append(append([]string(nil), path...), "[]")); dp != nil {
+				return dp, d
+			}
+		}
+		return nil, ""
+	default:
+		if fmt.Sprintf("%T:%v", a, a) != fmt.Sprintf("%T:%v", b, b) {
+			return path, fmt.Sprintf("%.80v vs %.80v", a, b)
+		}
+		return nil, ""
 	}
-	return fmt.Sprintf("length %d vs %d", len(a), len(b))
 }
 
-// compare reports how b differs from a ("" = unchanged). format is the format of the round trip.
-func compare(a, b *gcfg.Config, format string) string {
+func unusedGenericTree(c *gcfg.Config, format string) (any, error) {
+	var v any
 	if format == "yaml" {
-		if x, y := yamlOf(a), yamlOf(b); x != y {
-			return "yaml rendering " + firstDiff(x, y)
+		b, err := yaml.Marshal(c)
+		if err != nil {
+			return nil, err
 		}
-		if x, y := jsonOf(stripComponents(a)), jsonOf(stripComponents(b)); x != y {
-			return "json rendering " + firstDiff(x, y)
-		}
-		return ""
+		return v, yamlInto(b, &v)
 	}
-	if x, y := jsonOf(a), jsonOf(b); x != y {
-		return "json rendering " + firstDiff(x, y)
+	b, err := json.Marshal(c)
+	if err != nil {
+		return nil, err
 	}
-	if x, y := yamlOf(a), yamlOf(b); x != y {
-		return "yaml rendering " + firstDiff(x, y)
-	}
-	return ""
+	return v, jsonInto(b, &v)
 }
 
-// diffClass turns a difference description into a stable defect class: the configuration member.
-func diffClass(d string) string {
-	if i := strings.Index(d, "under \""); i >= 0 {
-		rest := d[i+7:]
-		if j := strings.Index(rest, "\""); j >= 0 {
-			path := rest[:j]
-			line := rest[j:]
-			if k := strings.Index(line, ": \""); k >= 0 {
-				key := strings.TrimSpace(strings.Trim(strings.SplitN(line[k+3:], ":", 2)[0], " \"-"))
-				if key != "" && !strings.ContainsAny(key, " {}[]") {
-					path += "." + key
-				}
-			}
-			return path
+func yamlInto(b []byte, v *any) error { return yaml.Unmarshal(b, v) }
+func jsonInto(b []byte, v *any) error { return json.Unmarshal(b, v) }
+
+// compare reports the member path at which b differs from a (nil = unchanged): both the YAML and
+// the JSON rendering are compared (the structs have no unserialised members).
+func compare(a, b *gcfg.Config) (path []string, what string) {
+	ca, cb := canonComponents(a), canonComponents(b)
+	for _, format := range []string{"yaml", "json"} {
+		if format == "yaml" && yamlOf(ca) == yamlOf(cb) || format == "json" && jsonOf(ca) == jsonOf(cb) {
+			continue
 		}
+		var ta, tb any
+		var ea, eb error
+		if format == "yaml" {
+			ea, eb = yamlInto([]byte(yamlOf(ca)), &ta), yamlInto([]byte(yamlOf(cb)), &tb)
+		} else {
+			ea, eb = jsonInto([]byte(jsonOf(ca)), &ta), jsonInto([]byte(jsonOf(cb)), &tb)
+		}
+		if ea != nil || eb != nil {
+			return []string{"<" + format + "-rendering-unreadable>"}, fmt.Sprint(ea, eb)
+		}
+		if p, d := treeDiff(ta, tb, nil); p != nil {
+			return p, format + " rendering: " + d
+		}
+		return []string{"<" + format + "-rendering-text-only>"}, "renderings differ textually but decode to the same tree"
 	}
-	return "other"
+	return nil, ""
+}
+
+// memberClass makes a stable defect class out of a member path: free-form map keys are dropped.
+func memberClass(path []string) string {
+	var out []string
+	for i, p := range path {
+		if i > 0 && (path[i-1] == "servers" || path[i-1] == "forcedHosts" || path[i-1] == "Servers" || path[i-1] == "ForcedHosts" || path[i-1] == "configOverrides") {
+			out = append(out, "*")
+			continue
+		}
+		out = append(out, p)
+	}
+	if len(out) > 4 {
+		out = out[:4]
+	}
+	return strings.ToLower(strings.Join(out, "."))
 }
 
 type rtResult struct {
 	format, loader string
 	err            error
-	diff           string
-	overlayExplain bool
+	path           []string
+	what           string
+	class          string // "", "default-overlay", "default-duration-x1e6"
+}
+
+func hasControlChars(c *gcfg.Config) bool {
+	ctl := func(s string) bool {
+		for _, r := range s {
+			if r < 0x20 {
+				return true
+			}
+		}
+		return false
+	}
+	for k, v := range c.Config.Servers {
+		if ctl(k) || ctl(v) {
+			return true
+		}
+	}
+	return ctl(c.Config.Bind)
 }
 
 func roundTrips(c *gcfg.Config, dir string, withLoader bool) []rtResult {
@@ -444,12 +558,9 @@ func roundTrips(c *gcfg.Config, dir string, withLoader bool) []rtResult {
 		res := rtResult{format: format, loader: "strict"}
 		if err := gate.VerifDecodeConfigStrict(doc, ext, &back); err != nil {
 			res.err = err
-		} else {
-			res.diff = compare(c, &back, format)
-			if res.diff == "" {
-				if _, errs := back.Validate(); len(errs) > 0 {
-					res.diff = fmt.Sprint("reloaded configuration no longer validates: ", errs)
-				}
+		} else if res.path, res.what = compare(c, &back); res.path == nil {
+			if _, errs := back.Validate(); len(errs) > 0 {
+				res.path, res.what = []string{"<validate>"}, fmt.Sprint("reloaded configuration no longer validates: ", errs)
 			}
 		}
 		out = append(out, res)
@@ -467,19 +578,31 @@ func roundTrips(c *gcfg.Config, dir string, withLoader bool) []rtResult {
 		res = rtResult{format: format, loader: "LoadConfig"}
 		if err != nil {
 			res.err = err
-		} else if res.diff = compare(c, loaded, format); res.diff != "" {
-			// is the difference explained by "a member omitted from the document because it is the
-			// zero value was filled with the built-in default"?
-			over := defaultsOverlay(doc, format)
-			res.overlayExplain = over != nil && compare(over, loaded, format) == ""
+		} else if res.path, res.what = compare(c, loaded); res.path != nil {
+			// explained by "a member omitted from the document because it holds the zero value was
+			// filled with the built-in default"?
+			if over := defaultsOverlay(doc, format, false); over != nil {
+				if p, _ := compare(over, loaded); p == nil {
+					res.class = "default-overlay"
+				}
+			}
+			// ... or by the same overlay with the default durations 10^6 times too large?
+			if res.class == "" {
+				if over := defaultsOverlay(doc, format, true); over != nil {
+					if p, _ := compare(over, loaded); p == nil {
+						res.class = "default-duration-x1e6"
+					}
+				}
+			}
 		}
 		out = append(out, res)
 	}
 	return out
 }
 
-// defaultsOverlay decodes doc on top of a copy of the built-in defaults (non-strict).
-func defaultsOverlay(doc []byte, format string) *gcfg.Config {
+// defaultsOverlay decodes doc (non-strict) on top of a copy of the built-in defaults.
+// scaled reproduces defaults whose durations are a factor 10^6 too large.
+func defaultsOverlay(doc []byte, format string, scaled bool) *gcfg.Config {
 	b, err := json.Marshal(&gcfg.DefaultConfig)
 	if err != nil {
 		return nil
@@ -487,6 +610,11 @@ func defaultsOverlay(doc []byte, format string) *gcfg.Config {
 	var base gcfg.Config
 	if json.Unmarshal(b, &base) != nil {
 		return nil
+	}
+	if scaled {
+		base.Config.ConnectionTimeout *= 1e6
+		base.Config.ReadTimeout *= 1e6
+		base.Config.PacketLimiter.Interval *= 1e6
 	}
 	base.Config.Servers = map[string]string{}
 	base.Config.ForcedHosts = map[string][]string{}
@@ -530,12 +658,95 @@ func TestC37(t *testing.T) {
 		}
 	}
 
-	dir := t.TempDir()
-	rng := r.Rng("cases")
-	n := r.N(9000, 400000)
+	// ---- fixed cases: every template with one member set to its zero value, through all loaders ----
+	fixed := []struct {
+		name string
+		f    func(*gcfg.Config)
+	}{
+		{"unchanged", func(*gcfg.Config) {}},
+		{"onlineMode=false", func(c *gcfg.Config) { c.Config.OnlineMode = false }},
+		{"connectionTimeout=0", func(c *gcfg.Config) { c.Config.ConnectionTimeout = 0 }},
+		{"readTimeout=0", func(c *gcfg.Config) { c.Config.ReadTimeout = 0 }},
+		{"compression={0,0}", func(c *gcfg.Config) { c.Config.Compression = jconfig.Compression{} }},
+		{"quota disabled and zeroed", func(c *gcfg.Config) { c.Config.Quota = jconfig.Quota{} }},
+		{"packetLimiter zeroed", func(c *gcfg.Config) { c.Config.PacketLimiter = jconfig.PacketLimiter{} }},
+		{"status.showMaxPlayers=0", func(c *gcfg.Config) { c.Config.Status.ShowMaxPlayers = 0 }},
+		{"status.favicon emptied", func(c *gcfg.Config) { c.Config.Status.Favicon = "" }},
+		{"builtinCommands=false", func(c *gcfg.Config) { c.Config.BuiltinCommands = false }},
+		{"forceKeyAuthentication=false", func(c *gcfg.Config) { c.Config.ForceKeyAuthentication = false }},
+		{"shutdownReason=nil", func(c *gcfg.Config) { c.Config.ShutdownReason = nil }},
+		{"healthService.bind emptied while disabled", func(c *gcfg.Config) { c.HealthService.Bind = "" }},
+	}
+	fixedDir := t.TempDir()
+	for _, tn := range names {
+		for _, fx := range fixed {
+			c := cloneCfg(templates[tn])
+			fx.f(c)
+			r.LogCase(map[string]any{"template": tn, "fixed": fx.name})
+			_, errs := c.Validate()
+			r.Eval(1)
+			r.Distinct("fixed|" + tn + "|" + fx.name)
+			if len(errs) > 0 {
+				if ref := refValidate(c); len(ref.broken) == 0 && len(ref.silent) == 0 {
+					r.Violation("validate-rejects-documented-valid-config-zeroed-member", "no documented constraint is broken but Validate reports an error", map[string]any{"template": tn, "edit": fx.name, "gate_errors": fmt.Sprint(errs)})
+				}
+				continue
+			}
+			r.Count("fixed_zero_value_cases_round_tripped", 1)
+			reportRoundTrips(r, roundTrips(c, fixedDir, true), tn, []string{fx.name})
+		}
+	}
+
+	n := r.N(6000, 240000)
 	loaderEvery := r.N(6, 12)
+	workers := r.N(4, 12)
 	var mustReject, mustAccept, notJudged, accepted, rejected, rtChecked int
 	brokenSeen, silentSeen, editSeen := map[string]int{}, map[string]int{}, map[string]int{}
+	var statMu sync.Mutex
+	var wg sync.WaitGroup
+	for w := 0; w < workers; w++ {
+		wg.Add(1)
+		go func(w int) {
+			defer wg.Done()
+			runCases(r, w, n/workers, loaderEvery, names, templates, t.TempDir(), func(f func()) { statMu.Lock(); f(); statMu.Unlock() },
+				&mustReject, &mustAccept, &notJudged, &accepted, &rejected, &rtChecked, brokenSeen, silentSeen, editSeen)
+		}(w)
+	}
+	wg.Wait()
+	r.Set("cases_must_reject", mustReject)
+	r.Set("cases_must_accept", mustAccept)
+	r.Set("cases_not_judged_documentation_silent", notJudged)
+	r.Set("gate_accepted", accepted)
+	r.Set("gate_rejected", rejected)
+	r.Set("accepted_configs_round_tripped", rtChecked)
+	r.Set("broken_constraint_classes_generated", brokenSeen)
+	r.Set("silent_classes_generated", silentSeen)
+	r.Set("edit_families_used", editSeen)
+}
+
+// runCases is one worker: its own PRNG stream and temp directory; statistics are merged under lock.
+func runCases(r *lib.Run, w, n, loaderEvery int, names []string, templates map[string]*gcfg.Config, dir string, locked func(func()),
+	pMustReject, pMustAccept, pNotJudged, pAccepted, pRejected, pRtChecked *int, gBroken, gSilent, gEdit map[string]int) {
+	rng := r.Rng(fmt.Sprintf("cases-%d", w))
+	var mustReject, mustAccept, notJudged, accepted, rejected, rtChecked int
+	brokenSeen, silentSeen, editSeen := map[string]int{}, map[string]int{}, map[string]int{}
+	defer locked(func() {
+		*pMustReject += mustReject
+		*pMustAccept += mustAccept
+		*pNotJudged += notJudged
+		*pAccepted += accepted
+		*pRejected += rejected
+		*pRtChecked += rtChecked
+		for k, v := range brokenSeen {
+			gBroken[k] += v
+		}
+		for k, v := range silentSeen {
+			gSilent[k] += v
+		}
+		for k, v := range editSeen {
+			gEdit[k] += v
+		}
+	})
 	for i := 0; i < n; i++ {
 		tn := names[rng.Intn(len(names))]
 		c := cloneCfg(templates[tn])
@@ -585,34 +796,37 @@ func TestC37(t *testing.T) {
 		accepted++
 		// ---- round trips of accepted configurations -----------------------------------------------
 		rtChecked++
-		for _, res := range roundTrips(c, dir, i%loaderEvery == 0) {
-			r.Count("roundtrip_"+res.format+"_"+res.loader, 1)
-			w := map[string]any{"template": tn, "edits": descs, "format": res.format, "loader": res.loader}
-			switch {
-			case res.err != nil:
-				w["error"] = res.err.Error()
-				r.Violation(fmt.Sprintf("accepted-config-%s-%s-reload-fails-%s", res.format, res.loader, errClass(res.err)), "an accepted configuration cannot be reloaded from its own serialisation", w)
-			case res.diff != "" && res.overlayExplain:
-				w["difference"] = res.diff
-				r.Violation(fmt.Sprintf("accepted-config-%s-LoadConfig-omitted-zero-value-replaced-by-default", res.format), "a member whose value is the zero value is omitted from the serialisation and comes back as the built-in default", w)
-			case res.diff != "":
-				w["difference"] = res.diff
-				r.Violation(fmt.Sprintf("accepted-config-%s-%s-roundtrip-changed-%s", res.format, res.loader, diffClass(res.diff)), "an accepted configuration does not survive serialize -> reload unchanged", w)
-			}
+		if hasControlChars(c) {
+			r.Count("roundtrip_skipped_control_characters_in_names", 1) // yaml.v3 does not round-trip such map keys
+			continue
 		}
+		reportRoundTrips(r, roundTrips(c, dir, i%loaderEvery == 0), tn, descs)
 		if r.WantSample() && i%40 == 0 {
 			r.Sample(map[string]any{"template": tn, "edits": descs, "reference_broken": ref.broken, "reference_silent": ref.silent, "gate_errors": len(errs), "gate_warnings": len(warns)})
 		}
 	}
-	r.Set("cases_must_reject", mustReject)
-	r.Set("cases_must_accept", mustAccept)
-	r.Set("cases_not_judged_documentation_silent", notJudged)
-	r.Set("gate_accepted", accepted)
-	r.Set("gate_rejected", rejected)
-	r.Set("accepted_configs_round_tripped", rtChecked)
-	r.Set("broken_constraint_classes_generated", brokenSeen)
-	r.Set("silent_classes_generated", silentSeen)
-	r.Set("edit_families_used", editSeen)
+}
+
+func reportRoundTrips(r *lib.Run, results []rtResult, tn string, descs []string) {
+	for _, res := range results {
+		r.Count("roundtrip_"+res.format+"_"+res.loader, 1)
+		w := map[string]any{"template": tn, "edits": descs, "format": res.format, "loader": res.loader}
+		switch {
+		case res.err != nil:
+			w["error"] = res.err.Error()
+			r.Violation(fmt.Sprintf("accepted-config-reload-fails-%s", errClass(res.err)), "an accepted configuration cannot be reloaded from its own serialisation", w)
+		case res.path == nil:
+		case res.class == "default-overlay":
+			w["member"], w["difference"] = strings.Join(res.path, "."), res.what
+			r.Violation("accepted-config-LoadConfig-omitted-zero-value-comes-back-as-default", "a member holding the zero value is omitted from the serialisation and the file loader fills in the built-in default", w)
+		case res.class == "default-duration-x1e6":
+			w["member"], w["difference"] = strings.Join(res.path, "."), res.what
+			r.Violation("accepted-config-LoadConfig-default-duration-1e6-times-too-large", "an omitted duration comes back as the built-in default multiplied by 10^6 (nanoseconds re-read as milliseconds)", w)
+		default:
+			w["member"], w["difference"] = strings.Join(res.path, "."), res.what
+			r.Violation(fmt.Sprintf("accepted-config-%s-roundtrip-changes-%s", res.format, memberClass(res.path)), "an accepted configuration does not survive serialize -> reload unchanged", w)
+		}
+	}
 }
 
 func errClass(err error) string {
